@@ -475,6 +475,11 @@ export class SchemaPrintingContext {
     this.inProgressDefinitions[name] = true;
   }
 
+  // a definition whose printing threw is not in progress any more
+  abandonDefinition(name: string): void {
+    delete this.inProgressDefinitions[name];
+  }
+
   storeDefinition(name: string, schema: JSONSchema7Definition): void {
     this.collectedDefinitions[name] = schema;
     delete this.inProgressDefinitions[name];
@@ -1912,7 +1917,13 @@ export class AnyOfDiscriminatedRuntype extends BaseRuntype {
       return;
     }
     printingContext.markDefinitionInProgress(name);
-    const body = target.schema(ctx);
+    let body: JSONSchema7;
+    try {
+      body = target.schema(ctx);
+    } catch (e) {
+      printingContext.abandonDefinition(name);
+      throw e;
+    }
     printingContext.storeDefinition(name, body);
   }
 
@@ -2444,7 +2455,13 @@ export abstract class BaseRefRuntype extends BaseRuntype {
       if (!printingContext.hasDefinition(name) && !printingContext.isDefinitionInProgress(name)) {
         printingContext.markDefinitionInProgress(name);
         const schemaTarget = printingContext.getNamedTypeSchemaOverride(name) ?? to;
-        const body = schemaTarget.schema(ctx);
+        let body: JSONSchema7;
+        try {
+          body = schemaTarget.schema(ctx);
+        } catch (e) {
+          printingContext.abandonDefinition(name);
+          throw e;
+        }
         printingContext.storeDefinition(name, body);
       }
       return annotateSchema(this.metadata, { $ref: printingContext.getRef(name) });
